@@ -263,6 +263,34 @@ func c03Scenarios(tier string) []*world.Scenario {
 			mk(fmt.Sprintf("closed-with-unwritten-fragment/%s+%s", first, how), "client-close", sc)
 		}
 	}
+	// (j) a split MGET whose merged reply exceeds the size limit (every fragment is within it) is answered with ONE error;
+	// the requests behind it get their own replies
+	for _, shape := range []string{"first", "middle"} {
+		ka, kb := keysA[0], keysB[0]
+		m := MGetReq(ka, kb)
+		m.Expect = []byte(world.RErrRspLarge)
+		reqs := []Req{m, GetReq(keysA[2]), GetReq(keysC[2]), GetReq(keysB[3])}
+		if shape == "middle" {
+			reqs = []Req{GetReq(keysC[1]), m, GetReq(keysA[2]), GetReq(keysB[3])}
+		}
+		for _, one := range []bool{true, false} {
+			sc := &world.Scenario{Nodes: T3m(), Bound: b, MaxLen: 64, Clients: []world.ClientSpec{ClientOf(reqs, one)}}
+			sc.Reply = func(w *world.World, bc *world.BConn, args [][]byte) ([]byte, int) {
+				if len(args) == 2 && world.Lower(args[0]) == "mget" && (string(args[1]) == ka || string(args[1]) == kb) {
+					return []byte("*1\r\n" + string(world.Bulk(strings.Repeat("L", 40)))), 0
+				}
+				return nil, 0
+			}
+			mk(fmt.Sprintf("oversize-merged-mget-%s/one=%v", shape, one), "oversize-merge", sc)
+			sc.Check = func(w *world.World) []world.Violation {
+				vs := CheckStreams(w, StreamOpts{})
+				for i := range vs {
+					vs[i].Sig = "stale-fragment-reply:oversize-merge"
+				}
+				return vs
+			}
+		}
+	}
 	// (f) backend connections that start with a handshake (AUTH and/or READONLY): the handshake replies under every
 	// segmentation with <= 2 cuts; none of them may surface as the reply to a client's request
 	for mask := 0; mask < 512; mask++ {
@@ -436,6 +464,45 @@ func c15Scenarios(tier string) []*world.Scenario {
 	for _, how := range []string{"quit", "garbage"} {
 		sc := CloseClientWithBacklog("C15", how, b)
 		out = append(out, sc)
+	}
+	// a client with a request pending on a node connection disconnects; only THEN is that node connection lost (or the pending
+	// request answered with a redirect that cannot be followed): the loop survives, another client is served
+	for _, kind := range []string{"backend-close", "backend-rst", "redirect-unknown"} {
+		for _, first := range []string{"get", "mget"} {
+			stalled := keysA[0]
+			var r Req
+			if first == "get" {
+				r = GetReq(stalled)
+			} else {
+				r = MGetReq(stalled, keysB[0])
+			}
+			gone := ClientOf([]Req{r}, true)
+			gone.CloseAfter = 1
+			gone.Expect = [][]byte{nil}
+			other := ClientOf([]Req{GetReq(keysA[3])}, true)
+			other.Chunks[0].Gate = func(w *world.World) bool { return w.Clients[0].Sock != nil && w.Clients[0].Sock.Closed }
+			follow(&other, keysA[4])
+			sc := &world.Scenario{Nodes: T3m(), Bound: b, Clients: []world.ClientSpec{gone, other}}
+			closedFirst := func(w *world.World) bool { return w.Clients[0].Sock != nil && w.Clients[0].Sock.Closed }
+			if kind == "redirect-unknown" {
+				sc.Reply = func(w *world.World, bc *world.BConn, args [][]byte) ([]byte, int) {
+					if hasKey(args, stalled) {
+						return movedTo(world.SpecSlot([]byte(stalled)), "10.9.9.9:7000"), 1 // arrives after the first clock tick
+					}
+					return nil, 0
+				}
+				sc.TickGate = closedFirst
+			} else {
+				sc.Reply = func(w *world.World, bc *world.BConn, args [][]byte) ([]byte, int) {
+					if hasKey(args, stalled) {
+						return world.ValueOf([]byte(stalled)), -1
+					}
+					return nil, 0
+				}
+				sc.Faults = []world.Fault{{Kind: kind, Addr: AddrA, AfterW: 1, Gate: closedFirst}}
+			}
+			add(fmt.Sprintf("client-gone-then-%s/%s", kind, first), "client-gone-then-backend-lost", "inflight-lost-on-backend-close", sc)
+		}
 	}
 	// redirect naming a node the proxy does not know
 	for _, n := range []string{"get", "mget-split", "get-get"} {
